@@ -3,7 +3,9 @@ use noodles_bgzf as bgzf;
 use noodles_core::Position;
 
 use super::Index;
-use crate::binning_index::index::reference_sequence::{bin::Chunk, parent_id, reg2bin};
+use crate::binning_index::index::reference_sequence::{
+    bin::Chunk, bin_interval, parent_id, reg2bin,
+};
 
 /// A binned index.
 pub type BinnedIndex = IndexMap<usize, bgzf::VirtualPosition>;
@@ -41,6 +43,45 @@ impl Index for BinnedIndex {
                 }
             })
             .or_insert(chunk.start());
+    }
+
+    // While records are being added, the offset of a bin is the start of the first record _in_
+    // the bin. A query prunes chunks using the offset of the bin that contains the start of the
+    // region (or its nearest ancestor), though, which must therefore be a lower bound for _every_
+    // record that overlaps or follows the start of that bin, including records placed in other
+    // bins, i.e., "the first overlapping record" (CSIv1 "loffset").
+    //
+    // The offset of each bin is lowered to the minimum offset over all bins that do not end
+    // before it starts.
+    fn finish(&mut self, min_shift: u8, depth: u8) {
+        use std::cmp::Reverse;
+
+        // (end, position), sorted by end (descending), with `position` being the running minimum.
+        let mut ends: Vec<_> = self
+            .iter()
+            .map(|(&id, &position)| (bin_interval(id, min_shift, depth).1, position))
+            .collect();
+
+        ends.sort_unstable_by_key(|&(end, _)| Reverse(end));
+
+        let mut min_position = bgzf::VirtualPosition::MAX;
+
+        for (_, position) in &mut ends {
+            min_position = min_position.min(*position);
+            *position = min_position;
+        }
+
+        for (&id, position) in self.iter_mut() {
+            let (start, _) = bin_interval(id, min_shift, depth);
+
+            // The number of bins that end after this bin starts. This is > 0 because it includes
+            // the bin itself.
+            let n = ends.partition_point(|&(end, _)| end > start);
+
+            if let Some((_, min_position)) = n.checked_sub(1).and_then(|i| ends.get(i)) {
+                *position = *min_position;
+            }
+        }
     }
 }
 
